@@ -108,8 +108,8 @@ async def _drive(case: dict) -> list[dict]:
         for pr in case["prios"]:
             for is_op in (True, False):
                 rr = ReportRequest(source_id=f"h{pr}{is_op}", component_ids=cids, priority=pr, set_operating_point=is_op)
-                if pr not in rep_rx:
-                    rep_rx[pr] = registry.get_or_create(_Report, rr.get_channel_name()).new_receiver(limit=1000)
+                # one receiver per (priority, kind): the channel name includes `set_operating_point`
+                rep_rx[(pr, is_op)] = registry.get_or_create(_Report, rr.get_channel_name()).new_receiver(limit=1000)
                 await subs.new_sender().send(rr)
                 await _settle()
         psend, bsend, rsend = proposals.new_sender(), bounds_ch.new_sender(), results.new_sender()
@@ -154,24 +154,33 @@ async def _drive(case: dict) -> list[dict]:
                 reqs.append(r)
             all_requests.extend(reqs)
             reg_rep, op_rep, reg_t, op_t, seen = [], [], None, None, False
+            anomalies: list = []
             for pr in case["prios"]:
-                rx = rep_rx[pr]
-                msgs = []
-                while rx._q:  # noqa: SLF001
-                    msgs.append(rx.consume())
-                # a report round sends the op report first, then the regular one, on the SAME channel
-                if msgs:
+                latest = {}
+                for is_op in (True, False):
+                    rx = rep_rx[(pr, is_op)]
+                    msgs = []
+                    while rx._q:  # noqa: SLF001
+                        msgs.append(rx.consume())
+                    if msgs:
+                        latest[is_op] = msgs
+                if latest:
                     seen = True
-                    op_m, reg_m = msgs[-2], msgs[-1]
-                    op_rep.append(None if op_m.bounds is None else [g.from_power(op_m.bounds.lower), g.from_power(op_m.bounds.upper)])
-                    reg_rep.append(None if reg_m.bounds is None else [g.from_power(reg_m.bounds.lower), g.from_power(reg_m.bounds.upper)])
-                    op_t, reg_t = g.from_power(op_m.target_power), g.from_power(reg_m.target_power)
+                    if len(latest) != 2 or any(len(m) != len(latest[True]) for m in latest.values()):
+                        anomalies.append({"prio": pr, "op_msgs": len(latest.get(True, [])), "reg_msgs": len(latest.get(False, []))})
+                    op_m = latest.get(True, [None])[-1]
+                    reg_m = latest.get(False, [None])[-1]
+                    op_rep.append(None if op_m is None or op_m.bounds is None else [g.from_power(op_m.bounds.lower), g.from_power(op_m.bounds.upper)])
+                    reg_rep.append(None if reg_m is None or reg_m.bounds is None else [g.from_power(reg_m.bounds.lower), g.from_power(reg_m.bounds.upper)])
+                    op_t = None if op_m is None else g.from_power(op_m.target_power)
+                    reg_t = None if reg_m is None else g.from_power(reg_m.target_power)
             outs.append({
                 "req": [g.from_power(r.power) for r in reqs],
                 "reg": g.from_power(actor._set_power_group.get_target_power(cids)),  # noqa: SLF001
                 "op": g.from_power(actor._set_op_power_group.get_target_power(cids)),  # noqa: SLF001
                 "regRep": reg_rep if seen else None, "opRep": op_rep if seen else None,
                 "reported": [reg_t, op_t] if seen else None,
+                "report_anomalies": anomalies,
             })
         await actor.stop()
     return outs
@@ -202,6 +211,9 @@ def check_case(ctx: Ctx, case: dict) -> dict:
         if ev["ev"] == "proposal":
             seen_op |= ev["op"]
             seen_reg |= not ev["op"]
+        if o.get("report_anomalies"):
+            ctx.violation("each subscription receives exactly its own reports (op and regular report channels are distinct)",
+                          {"prios": case["prios"], "events": case["events"][: i + 1]}, o["report_anomalies"])
         if len(o["req"]) > 1:
             ctx.violation("one-request-per-event", {"prios": case["prios"], "events": case["events"][: i + 1]}, o)
         for r in o["req"]:
@@ -248,6 +260,8 @@ def run(ctx: Ctx) -> None:
         cases.append(gen_history(ctx.subrng("history", i)))
     impl = [check_case(ctx, c) for c in cases]
     ctx.compare("PowerManager", cases, impl, what="PowerManagingActor requests / targets / reports")
+    from . import powerpath  # full-stack stage: the same property through the public pool API (real actors)
+    powerpath.run_stage(ctx, {"C11-sum"}, n_quick=60, n_thorough=800)
 
 
 def replay(ctx: Ctx, data: dict) -> None:
